@@ -266,7 +266,9 @@ Print Assumptions C16_compile_wf_large_before_fix.
    if / else-if / else chains, while, break, `for range …` without a loop
    variable — arbitrarily nested, with all expressions in the expression
    fragment efrag (reads of globals and locals, array and map literals, index reads, slices;
-   _partial: no element stores, no function calls).  For every such program: if the compiler
+   element stores `a[i] = e` / `m[k] = e` are in this fragment: for WF they are
+   three expressions and OpSetIndex; by C17_compile_wf_all the fragment is
+   every program the compiler accepts).  For every such program: if the compiler
    succeeds and leaves no pending break (a break outside a loop, which the
    parser rejects), its output satisfies WF with LocalCount = the
    nestedMaxIndex of the compiler's root table:
